@@ -7,7 +7,7 @@
 //!   -> {"id","parse":"ok"|"err","load":"ok"|"err(<class>)"|"panic","site":"<file>:<line>"|null,
 //!       "msg":<panic message>|null,"doc":<Gallina term of type Types.json>|null,"depth":n}
 //!   `parse`/`doc` are serde_json's own view of the text (the document the std loader sees).
-//! case {"id":..,"mode":"save","story":<story text>,"save":<save text>}
+//! case {"id":..,"mode":"save","story":<story text>,"save":<save text>,"play":bool (optional, default true)}
 //!   -> {"id","new":..,"load":..,"site","msg","reset":"ok"|..,"after":<transcript>,"fresh":<transcript>}
 //!   after the load attempt: reset_state + continue_maximally, compared by the caller with a fresh story.
 //! case {"id":..,"mode":"mksave","story":<story text>,"path":[i,..],"lines":n (optional, default 2)}
@@ -200,7 +200,10 @@ fn run_case(case: &J) -> J {
             };
             // a save that was accepted: does the story still play? (statistic only)
             let mut played = J::Null;
-            if load == "ok" {
+            // optional "play": false skips this phase (used to tell a process death inside load_state /
+            // reset from one while an accepted save is played on)
+            let play = case.get("play").and_then(|x| x.as_bool()).unwrap_or(true);
+            if load == "ok" && play {
                 let _ = take_loc();
                 let t = transcript(&mut st);
                 let (psite, _) = take_loc();
